@@ -520,7 +520,9 @@ theorem saveString_cells (d : Doc) (s : List Byte) : (d.saveString s).2.cells = 
   simp only [Doc.saveString]
   split
   · exact ⟨rfl, rfl⟩
-  · generalize d.pl.alloc (s.length + d.strOverhead) = r
+  · split
+    · exact ⟨rfl, rfl⟩
+    generalize d.pl.alloc (s.length + d.strOverhead) = r
     obtain ⟨ok, pl⟩ := r
     cases ok <;> exact ⟨rfl, rfl⟩
 
